@@ -30,7 +30,7 @@ func init() { register(c01{}) }
 func (c01) ID() string { return "C01" }
 func (c01) Runs(tier string) int {
 	if tier == "quick" {
-		return 4000
+		return 10000
 	}
 	return 0
 }
